@@ -178,14 +178,15 @@ func Sparse6Decode(s string) (*SparseGraph, error) {
 	k := 64 - bits.LeadingZeros64(n-1)
 	var bitIndex uint
 	for {
+		//An incomplete group of 1 + k bits at the end is padding.
+		if (len(s)-i)*6-int(bitIndex) < 1+k {
+			return g, nil
+		}
 		b := ((s[i] - 63) >> (5 - bitIndex)) & 1
 		bitIndex++
 		if bitIndex == 6 {
 			bitIndex = 0
 			i++
-			if i >= len(s) {
-				return g, nil
-			}
 		}
 		if b == 1 {
 			v++
@@ -199,14 +200,11 @@ func Sparse6Decode(s string) (*SparseGraph, error) {
 			if bitIndex == 6 {
 				bitIndex = 0
 				i++
-				if i >= len(s) {
-					return g, nil
-				}
 			}
 		}
 		if x > v {
 			v = x
-		} else {
+		} else if v < int(n) {
 			g.AddEdge(v, x)
 		}
 	}
